@@ -27,6 +27,10 @@ func SentinelMiddleware(opts ...Option) iris.Handler {
 		if err != nil {
 			if options.blockFallback != nil {
 				options.blockFallback(c)
+				// (under forced execution rules iris goes on to the next handler, the route handler of the
+				// blocked request included, unless the chain is stopped: a fallback that answers and returns
+				// is a complete answer in iris' ordinary mode, and has to be one there)
+				c.StopExecution()
 			} else {
 				c.StatusCode(http.StatusTooManyRequests)
 				c.StopExecution()
